@@ -16,6 +16,7 @@ func init() {
 	reg("H_C13_counts", H_C13_counts)
 	reg("H_C13_index_keys", H_C13_index_keys)
 	reg("H_C13_paging", H_C13_paging)
+	reg("H_C13_prefix_keys", H_C13_prefix_keys)
 }
 
 type statEntry struct {
@@ -392,4 +393,71 @@ func H_C13_paging() {
 		verif.Assert(idx < total && sameListed(seen[k], full[idx]), "walk-follows-the-store-order")
 	}
 	_ = match
+}
+
+
+// H_C13_prefix_keys: ledgers in which the key of one entry is a byte-prefix of another's (destination domains 1 and 10
+// of one source; denominations uusdc and uusdcx of one route — the last key component is stored without a terminator):
+// following next-keys, forwards and in reverse, visits each matching entry exactly once and ends.
+func H_C13_prefix_keys() {
+	w := NewWorld(false)
+	d := w.K.Dispatcher()
+	qs := dispatchercomp.NewQueryServer(d)
+	listing := verif.Choose("listing", 4)
+	src := core.CrossChainID{ProtocolId: core.PROTOCOL_IBC, CounterpartyId: "channel-0"}
+	if listing < 2 {
+		dst := core.CrossChainID{ProtocolId: core.PROTOCOL_CCTP, CounterpartyId: "7"}
+		for i, denom := range []string{"uusdc", "uusdcx", "uusdd"} {
+			must(d.SetDispatchedAmount(w.Ctx, &src, &dst, denom, dispatchertypes.AmountDispatched{Incoming: math.NewInt(int64(10 + i)), Outgoing: math.NewInt(int64(5 + i))}))
+		}
+	} else {
+		for i, dom := range []string{"1", "10", "2"} {
+			dst := core.CrossChainID{ProtocolId: core.PROTOCOL_CCTP, CounterpartyId: dom}
+			must(d.SetDispatchedCounts(w.Ctx, &src, &dst, uint64(1+i)))
+		}
+	}
+	p := core.PROTOCOL_CCTP
+	if listing == 1 || listing == 3 {
+		p = core.PROTOCOL_IBC
+	}
+	full, _, err := listPage(qs, w, listing, p, nil)
+	verif.Assert(err == nil && len(full) == 3, "unpaged-listing-has-the-three-entries")
+	if err != nil {
+		return
+	}
+	limit := uint64(1 + verif.Choose("page-limit", 2))
+	reverse := verif.Choose("reverse", 2) == 1
+	var seen []listedEntry
+	req := &query.PageRequest{Limit: limit, Reverse: reverse}
+	finished := false
+	for round := 0; round < 6; round++ {
+		page, resp, err := listPage(qs, w, listing, p, req)
+		verif.Assert(err == nil, "page-succeeds")
+		if err != nil {
+			return
+		}
+		seen = append(seen, page...)
+		if resp == nil || len(resp.NextKey) == 0 {
+			finished = true
+			break
+		}
+		req = &query.PageRequest{Key: resp.NextKey, Limit: limit, Reverse: reverse}
+	}
+	once := finished && len(seen) == len(full)
+	for _, x := range full {
+		c := 0
+		for _, y := range seen {
+			if sameListed(x, y) {
+				c++
+			}
+		}
+		once = once && c == 1
+	}
+	if reverse {
+		verif.Cover("reverse-walk")
+		verif.Assert(once, "prefix-keys-reverse-walk-visits-each-entry-exactly-once-and-ends")
+	} else {
+		verif.Cover("forward-walk")
+		verif.Assert(once, "prefix-keys-forward-walk-visits-each-entry-exactly-once-and-ends")
+	}
 }
